@@ -164,6 +164,15 @@ try:
     b.decode('utf-8')
     t = parse_musicxml(path)
     out['reparsed_sha'] = hashlib.sha1(t.to_string().encode('utf-8')).hexdigest()
+    # the same document over a destination that already exists: itself, and a longer unrelated file
+    s.write(path)
+    out['rewritten_sha'] = hashlib.sha1(open(path, 'rb').read()).hexdigest()
+    other = os.path.join(d, 'y.xml')
+    with open(other, 'wb') as f:
+        f.write(b'\xff\xfe' + b'z' * (2 * len(b)))
+    s.write(other)
+    out['overwritten_sha'] = hashlib.sha1(open(other, 'rb').read()).hexdigest()
+    out['leftovers'] = sorted(x for x in os.listdir(d) if x not in ('x.xml', 'y.xml'))
     out['status'] = 'ok'
 except Exception as e:
     out['status'] = 'err:' + type(e).__name__ + ':' + str(e)[:120]
@@ -208,7 +217,8 @@ def locale_matrix(thorough=False):
     ref = results[0]
     viol = []
     for r in results:
-        if r.get('status') != 'ok' or r.get('written_sha') != ref.get('written_sha') or r.get('reparsed_sha') != ref.get('reparsed_sha'):
+        if r.get('status') != 'ok' or r.get('written_sha') != ref.get('written_sha') or r.get('reparsed_sha') != ref.get('reparsed_sha') \
+                or r.get('rewritten_sha') != r.get('written_sha') or r.get('overwritten_sha') != r.get('written_sha') or r.get('leftovers'):
             viol.append({'kind': 'locale-dependent', 'config': r['config'], 'result': {k: v for k, v in r.items() if k != 'config'},
                          'reference': {k: v for k, v in ref.items() if k != 'config'}})
     return results, viol
